@@ -54,7 +54,15 @@ def cases(ctx):
                     continue
                 if rd >= 1000 and ol not in (20, 33, 65, 200) and not t:
                     continue
-                yield {"k": "pbkdf2", "fn": fn, "password": gen.rbytes(r, r.choice([0, 1, 8, 64, 65, 129])).hex(), "salt": gen.rbytes(r, r.choice([0, 1, 8, 16, 64, 100])).hex(), "rounds": rd, "len": ol}
+                yield {"k": "pbkdf2", "fn": fn, "password": gen.rbytes(r, [0, 1, 8, 63, 64, 65, 127, 128, 129, 200][(k + ol) % 10]).hex(), "salt": gen.rbytes(r, r.choice([0, 1, 8, 16, 64, 100])).hex(), "rounds": rd, "len": ol}
+    # password / salt lengths around the HMAC block sizes, for every PRF
+    for fn in ("sha1", "sha256", "sha512"):
+        for pl in [0, 1, 55, 56, 63, 64, 65, 111, 112, 127, 128, 129, 200]:
+            for sl in (0, 8, 64, 128):
+                k += 1
+                if k % N != S:
+                    continue
+                yield {"k": "pbkdf2", "fn": fn, "password": gen.rbytes(r, pl).hex(), "salt": gen.rbytes(r, sl).hex(), "rounds": r.choice([1, 2, 3]), "len": r.choice([20, 32, 33, 64, 65])}
     kinds = ["sha256d", "sha256r", "hash160", "signing_sha256", "signing_sha256d"]
     for L in range(0, 131):
         k += 1
